@@ -285,6 +285,34 @@ func runCase(c map[string]any) (steps []map[string]any) {
 		st.gates[sid] = &vGate{admit: make(chan struct{}, 1), release: make(chan struct{}, 1)}
 		st.mu.Unlock()
 	}
+	classify := func(cl opshell.CLine) []any {
+		if cl.Plain {
+			return []any{"plain", hex.EncodeToString([]byte(cl.Line))}
+		}
+		a := ""
+		if strings.HasPrefix(cl.Line, "[") {
+			if i := strings.Index(cl.Line, "] "); i > 0 {
+				a = cl.Line[1:i]
+			}
+		}
+		k := "other"
+		switch {
+		case strings.HasSuffix(cl.Line, "] "+iobroker.ShellReadyMessage):
+			k = "ready"
+		case strings.HasSuffix(cl.Line, "] "+iobroker.ShellDisconnectedMessage):
+			k = "gone"
+		}
+		dw := ""
+		low := strings.ToLower(cl.Line)
+		if strings.Contains(low, "input") {
+			dw = "in"
+		}
+		if strings.Contains(low, "output") {
+			dw += "out"
+		}
+		return []any{"note", a, int(cl.Color), k, dw, cl.Line}
+	}
+	var windOl [][]any /* what the terminal receives while everything is wound down */
 	collect := func(op map[string]any) map[string]any {
 		synctest.Wait()
 		obs := map[string]any{}
@@ -301,32 +329,7 @@ func runCase(c map[string]any) (steps []map[string]any) {
 		for 0 != want {
 			select {
 			case cl := <-och:
-				if cl.Plain {
-					ol = append(ol, []any{"plain", hex.EncodeToString([]byte(cl.Line))})
-				} else {
-					a := ""
-					if strings.HasPrefix(cl.Line, "[") {
-						if i := strings.Index(cl.Line, "] "); i > 0 {
-							a = cl.Line[1:i]
-						}
-					}
-					k := "other"
-					switch {
-					case strings.HasSuffix(cl.Line, "] "+iobroker.ShellReadyMessage):
-						k = "ready"
-					case strings.HasSuffix(cl.Line, "] "+iobroker.ShellDisconnectedMessage):
-						k = "gone"
-					}
-					dw := ""
-					low := strings.ToLower(cl.Line)
-					if strings.Contains(low, "input") {
-						dw = "in"
-					}
-					if strings.Contains(low, "output") {
-						dw += "out"
-					}
-					ol = append(ol, []any{"note", a, int(cl.Color), k, dw, cl.Line})
-				}
+				ol = append(ol, classify(cl))
 				if want > 0 && len(ol) >= want {
 					break DRAIN
 				}
@@ -511,7 +514,7 @@ func runCase(c map[string]any) (steps []map[string]any) {
 		st.mu.Unlock()
 		/* Keep the operator channel flowing. */
 		for len(och) > 0 {
-			<-och
+			windOl = append(windOl, classify(<-och))
 			moved++
 		}
 		if 0 == moved {
@@ -520,6 +523,9 @@ func runCase(c map[string]any) (steps []map[string]any) {
 	}
 	dcancel()
 	fin := collect(nil)
+	if fo, _ := fin["och"].([][]any); 0 != len(windOl) || 0 != len(fo) {
+		fin["och"] = append(windOl, fo...)
+	}
 	/* Anything of the broker still running? */
 	buf := make([]byte, 1<<20)
 	buf = buf[:runtime.Stack(buf, true)]
